@@ -2,7 +2,7 @@
 import json
 from lib import fw
 
-MODULES = ["SunriseVerif.Props.C13", "SunriseVerif.Witness.C13", "SunriseVerif.Props.ParamGuards", "SunriseVerif.Props.ParamGuardsLI"]
+MODULES = ["SunriseVerif.Props.C13", "SunriseVerif.Witness.C13", "SunriseVerif.Props.ParamGuards", "SunriseVerif.Props.ParamGuardsLI", "SunriseVerif.Props.TieMint"]
 
 
 def features(f):
@@ -17,7 +17,7 @@ def features(f):
 def run(ctx):
     if not ctx.translate():
         return
-    ok = ctx.prove(MODULES, needs_gen=["KernelsMint", "KernelsGovFee", "FactsBan", "KernelsParamsLI"])
+    ok = ctx.prove(MODULES, needs_gen=["KernelsMint", "KernelsGovFee", "FactsBan", "KernelsParamsLI", "KernelsTieMint"])
     # part 1: conversion (model vs real bank + message router)
     res = fw.corr(ctx, "convert", 200 if ctx.thorough() else 8)
     fw.report_corr(ctx, "convert", res)
